@@ -825,7 +825,18 @@ def run_c20(spec: Dict[str, Any]) -> "tuple[List[Violation], Dict[str, Any]]":
         outcome = None
         result = None
         try:
-            if entry == "exception_to_python":
+            if entry in ("wrapper", "wrapper_validate", "wrapper_pickle"):
+                # the form a pickled TaskiqResult holds for errors that could not be pickled
+                w = ser._UnpickleableExceptionWrapper(module or "builtins", name, tuple(args), f"{name}{tuple(args)!r}")
+                if entry == "wrapper":
+                    result = ser.exception_to_python(w)
+                elif entry == "wrapper_validate":
+                    result = TaskiqResult.model_validate({"is_err": True, "return_value": None, "execution_time": 0.1, "error": w}).error
+                else:
+                    # the wrapper as it comes out of a pickle store (re-pickling a *restored* error is a store
+                    # operation and outside C20: pickle itself imports the module a class claims)
+                    result = ser.exception_to_python(pickle.loads(pickle.dumps(w)))
+            elif entry == "exception_to_python":
                 result = ser.exception_to_python(p)  # type: ignore[arg-type]
             elif entry == "model_validate":
                 result = TaskiqResult.model_validate({"is_err": True, "return_value": None, "execution_time": 0.1, "error": p}).error
@@ -867,6 +878,12 @@ def run_c20(spec: Dict[str, Any]) -> "tuple[List[Violation], Dict[str, Any]]":
         if new_mods or bad_imports:
             v.append(Violation("module-imported", f"{entry}: loading ({module!r}, {name!r}) imported {sorted(new_mods) or bad_imports}"))
         # (iii) outcome
+        if entry.startswith("wrapper"):
+            if outcome != "loaded" or not isinstance(result, BaseException):
+                v.append(Violation("wrapper-not-restored", f"{entry}: wrapper for ({module!r}, {name!r}) gave {outcome} / {_safe(result)}"))
+            elif type(result).__name__ != name or (ok and isinstance(target, type) and type(result) is target and not is_exc):
+                v.append(Violation("wrapper-restored-with-real-class", f"{entry}: wrapper for ({module!r}, {name!r}) restored as {type(result).__module__}.{type(result).__qualname__}"))
+            continue
         if outcome == "loaded":
             top = result
             inner = top
@@ -973,9 +990,11 @@ class C20(Check):
                     continue
                 module, name = CATALOGUE[k]
             nest = rng.choice([0, 0, 1, 2, 3, 4]) if tier == "thorough" else rng.choice([0, 0, 1, 2])
+            entries = ["exception_to_python", "model_validate", "model_validate_json"]
+            if module and "." not in name and name and rng.random() < 0.4:
+                entries = entries + ["wrapper", "wrapper_validate", "wrapper_pickle"]
             yield {"module": module, "name": name, "args": rng.choice(ARGS_POOL), "nest": nest,
-                   "where": rng.choice(["cause", "context", "mixed"]),
-                   "entries": ["exception_to_python", "model_validate", "model_validate_json"]}
+                   "where": rng.choice(["cause", "context", "mixed"]), "entries": entries}
 
     def run_case(self, spec: Dict[str, Any]) -> CaseResult:
         cr = CaseResult()
